@@ -301,7 +301,7 @@ def uncontrolled_supplement():
     return res
 
 
-RUNS = {"quick": 6000, "thorough": 300000}
+RUNS = {"quick": 6000, "thorough": 150000}
 RULE = ("one evaluation = one seeded stack (0-12 snapshots x 2-40 grains; random, clustered, mixed, "
         "with a duplicated snapshot in a share) pushed through misorientation_indices via one of "
         "three entry paths: pool=SimPool, ncpus=k with pydrex.diagnostics.Pool rebound to a SimPool "
